@@ -1079,8 +1079,8 @@ pub mod rare {
     }
 
     /// former findings the document exercises (regression probes; every path must agree now): a root field `us` / `un`
-    /// (unit targets, tape path repaired in /repo 6e6603e), a root field `big` / `ubig` holding an integer (i128 / u128
-    /// targets, sequential paths repaired in /repo dc586a0)
+    /// (unit targets, tape path repaired in /repo c896e07), a root field `big` / `ubig` holding an integer (i128 / u128
+    /// targets, sequential paths repaired in /repo 6a6d32a)
     pub fn repaired_probes(data: &[u8], tab: &[(u16, String)]) -> Vec<&'static str> {
         use jomini::BinaryToken as T;
         let mut out = vec![];
